@@ -230,7 +230,7 @@ Section Valid.
             | Some id => jvalue_eqb (match jget (u "id") m with Some i => i | None => JNull end) (JStr id) &&
                          jvalue_eqb (match jget (u "created") m with Some i => i | None => JNull end)
                                     (JStr (u "2017-01-20T00:00:00.000Z"))
-            | None => true
+            | None => false      (* tlp is one of white / green / amber / red *)
             end
           | _ => false
           end
@@ -387,6 +387,19 @@ Section Valid.
     | KAny => no_empties j
     end.
 
+  (* STIX 2.1 toplevel-property-extension: an entry of `extensions` (on a type that has the property) that
+     declares itself one vouches for additional top-level properties, whose values are free JSON *)
+  Definition has_toplevel_extension (c : cls) (m : list (ustring * jvalue)) : bool :=
+    match find (fun s => ustr_eqb (sname s) (u "extensions")) (cslots c), jlookup (u "extensions") m with
+    | Some _, Some (JObj exts) =>
+      existsb (fun kv => match snd kv with
+                         | JObj e => jvalue_eqb (match jlookup (u "extension_type") e with Some t => t | None => JNull end)
+                                                (JStr (u "toplevel-property-extension"))
+                         | _ => false
+                         end) exts
+    | _, _ => false
+    end.
+
   Definition valid_obj_body (vk : pkind -> jvalue -> bool) (jc : cls -> list (ustring * jvalue) -> constr -> bool)
              (cid : ustring) (j : jvalue) : bool :=
     match find_class (wclasses sw) cid, j with
@@ -394,7 +407,7 @@ Section Valid.
       (* every member is a specified property with a valid value; nothing null or empty *)
       forallb (fun kv => match find (fun s => ustr_eqb (sname s) (fst kv)) (cslots c) with
                          | Some s => vk (skind s) (snd kv)
-                         | None => false
+                         | None => has_toplevel_extension c m && no_empties (snd kv)
                          end) m &&
       (* required properties, including those the specification defaults (type, id, created, ...) *)
       forallb (fun s => negb (spec_required c s) || match jlookup (sname s) m with Some _ => true | None => false end) (cslots c) &&
@@ -424,7 +437,7 @@ Section Valid.
     | Some c, JObj m =>
       flat_map (fun kv => match find (fun s => ustr_eqb (sname s) (fst kv)) (cslots c) with
                           | Some s => if valid_kind fuel (skind s) (snd kv) then [] else [WBadValue (fst kv)]
-                          | None => [WUnknownProperty (fst kv)]
+                          | None => if has_toplevel_extension c m && no_empties (snd kv) then [] else [WUnknownProperty (fst kv)]
                           end) m ++
       flat_map (fun s => if negb (spec_required c s) || match jlookup (sname s) m with Some _ => true | None => false end
                          then [] else [WMissing (sname s)]) (cslots c) ++
